@@ -77,6 +77,8 @@ class State:
         self.live = []
         self.zone = {}        # (x, y) -> c   meaning  x - y <= c ; x,y sym ids or 0 for ZERO
         self.env = {}         # frame id -> {decl id -> value}: local variables are per-path state
+        self.memo = {}        # (op, sym id, sym id) -> sym id of the result (memoised symbolic arithmetic)
+        self.x = {}           # monitor-specific per-path data (values: scalars or flat dicts)
         self.av = None        # sym id of 'bytes available at the current cursor of the main input'
         self.epoch = 0        # incremented whenever the cursor of the main input moves
         self.req = []         # amounts requested through size()/empty()/require() in this epoch: linear forms (sym id|0, const)
@@ -86,7 +88,8 @@ class State:
         s.next = self.next; s.facts = {k: list(v) for k, v in self.facts.items()}; s.nsym = self.nsym
         s.trace = list(self.trace); s.viol = list(self.viol); s.events = list(self.events); s.live = list(self.live)
         s.zone = dict(self.zone); s.av = self.av; s.epoch = self.epoch; s.req = list(self.req)
-        s.env = {k: dict(v) for k, v in self.env.items()}
+        s.env = {k: dict(v) for k, v in self.env.items()}; s.memo = dict(self.memo)
+        s.x = {k: (dict(v) if isinstance(v, dict) else v) for k, v in self.x.items()}
         return s
     def zadd(self, x, y, c):
         if x == y: return
@@ -149,10 +152,10 @@ class State:
             return vkey(v)
         r = tuple(walk(v) for v in roots)
         if self.av is not None and self.av not in symno: symno[self.av] = 'AV'
-        for (x, c) in self.req:
-            if x and x not in symno: symno[x] = len(symno) + 1000
+        for q in self.req:
+            if q[0] and q[0] not in symno: symno[q[0]] = len(symno) + 1000
         z = tuple(sorted(((symno.get(x, 0) if x else 0, symno.get(y, 0) if y else 0, c) for (x, y), c in self.zone.items() if (x == 0 or x in symno) and (y == 0 or y in symno)), key=str))
-        rq = tuple(sorted((((symno.get(x, 0) if x else 0), c) for (x, c) in self.req), key=str))
+        rq = tuple(sorted(((symno.get(q[0], 0), q[1]) for q in self.req), key=str))
         return (r, tuple(out), z, symno.get(self.av), rq)
 
 _frame_serial = [0]
@@ -182,7 +185,7 @@ class Unmodelled(Exception): pass
 
 class Exec:
     def __init__(self, db, monitor):
-        self.db = db; self.mon = monitor; self.steps = 0; self.maxsteps = 400000; self.max_loop_states = 3000
+        self.db = db; self.mon = monitor; self.steps = 0; self.maxsteps = 400000; self.max_loop_states = 3000; self.t0 = None; self.maxwall = 60.0
         self.depth = 0
         self.frames = []
 
@@ -190,6 +193,10 @@ class Exec:
     def tick(self):
         self.steps += 1
         if self.steps > self.maxsteps: raise Budget()
+        if (self.steps & 1023) == 0:
+            import time
+            if self.t0 is None: self.t0 = time.time()
+            elif time.time() - self.t0 > self.maxwall: raise Budget()
 
     def truth(self, v, st):
         """yield (bool, state) for a value used as condition"""
@@ -440,6 +447,19 @@ class Exec:
             return n
         if ia and isinstance(b, Sym) and op == '+':
             return self.arith('+', b, a, st)
+        if isinstance(a, Sym) and isinstance(b, Sym) and op in ('+', '-'):
+            # memoised: the same operands always give the same symbol, so provenance can be compared by identity
+            key = (op, a.id, b.id) if op == '-' else ('+',) + tuple(sorted((a.id, b.id)))
+            if key in st.memo: return Sym(st.memo[key])
+            lo = hi = None
+            d = st.closure()
+            if op == '-':
+                v = d.get((b.id, a.id)); lo = -v if v is not None else None        # b - a <= v  =>  a - b >= -v
+                v = d.get((a.id, b.id)); hi = v if v is not None else None
+            n = st.sym(lo, hi); st.memo[key] = n.id
+            if n.id not in st.facts: st.facts[n.id] = [lo, hi]
+            else: st.facts[n.id] = [lo, hi]
+            return n
         return Unknown('arith')
 
     def compare(self, op, a, b, st):
@@ -553,6 +573,7 @@ class Exec:
         for l, s in self.nv(e['l'], st, fr, T):
             for r, s2 in self.nv(e['r'], s, fr, T):
                 if op in ('<', '>', '<=', '>=', '==', '!='):
+                    self.mon.on_compare(self, s2, e, op, l, r)
                     yield from self.compare(op, l, r, s2)
                 else:
                     yield self.arith(op, l, r, s2), s2
@@ -699,8 +720,8 @@ class Exec:
         for a in list(st.heap):
             if a not in seen: del st.heap[a]
         if st.av is not None: syms.add(st.av)
-        for (x, c) in st.req:
-            if x: syms.add(x)
+        if st.memo: st.memo = {k2: v2 for k2, v2 in st.memo.items() if v2 in syms and k2[1] in syms and k2[2] in syms}
+        st.req = [q for q in st.req if q[0] in syms]      # a request is remembered only while its result is still referenced
         # keep relations only between live syms (after closing, so transitive facts survive)
         if st.zone:
             d = st.closure()
